@@ -23,6 +23,13 @@ Definition std_index_byte (s : bytes) (c : Z) : Z := index_byte_from (fun b => b
 (* bytealg.IndexString / bytealg.Index / strings.Index on short needles *)
 Definition std_index (s sub : bytes) : Z := raw_index_pats [sub] s 0.
 
+(* the runtime's internal/bytealg.Index / IndexString entered through go:linkname from Index's fast path for
+   non-letter needles: "Requires 2 <= len(b) <= MaxLen".  [rtmax] is the runtime's MaxLen; outside the contract
+   the call is a crash in the model (on amd64 without AVX2, MaxLen = 31, a longer needle runs AVX2 instructions:
+   SIGILL), inside it the first occurrence. *)
+Definition native_index (rtmax : Z) (s sub : bytes) : res Z :=
+  if (2 <=? len sub) && (len sub <=? rtmax) then Ok (std_index s sub) else Panic.
+
 Section Impl4.
 Variable native : bool.          (* bytealg.NativeIndex *)
 Variable cutover : Z -> Z.       (* bytealg.Cutover *)
